@@ -53,6 +53,9 @@ int64_t carquet_column_read_batch(
         return 0;
     }
 
+    /* BYTE_ARRAY values returned by the previous call are no longer needed */
+    carquet_column_reader_release_retired(reader);
+
     if (reader->values_remaining <= 0) {
         return 0;
     }
